@@ -55,7 +55,11 @@ func (o *Out) Emit(kind string, nontrivial bool, op string, result string) {
 		rk = rk[:i]
 	}
 	if i := strings.IndexByte(rk, '='); i >= 0 {
-		rk = rk[:i]
+		if rk[i+1:] == "-" {
+			rk = rk[:i] + "=-"
+		} else {
+			rk = rk[:i] + "=*"
+		}
 	}
 	if len(rk) > 12 || (len(rk) > 1 && rk[0] == 'x') {
 		rk = "value"
